@@ -180,7 +180,10 @@ Inductive op2 : Type :=
 | OpAddMintAsset (p n : bytes) (amt : Z)                               (* add_mint_asset (deprecated) *)
 | OpSetMintDeprecated (scripts_ok : bool) (es : list (bytes * bytes * Z))   (* set_mint (deprecated) *)
 | OpSetCertsDeprecated (l : list (cert * bool))                        (* set_certs (deprecated); bool = script credential *)
-| OpSetWithdrawalsDeprecated (l : list (N * N * bool)).                (* set_withdrawals (deprecated) *)
+| OpSetWithdrawalsDeprecated (l : list (N * N * bool))                 (* set_withdrawals (deprecated) *)
+| OpProposalsKeyed (l : list (N * N)).                                 (* VotingProposalBuilder::add of (identity, deposit) items, then
+                                                                          set_voting_proposal_builder: the builder is a map keyed by the
+                                                                          proposal, so the same proposal added twice is there once *)
 
 (* the collateral-return admission with recorded answers: S (too large -> Err) then A *)
 Definition tape_ask_col (_ : Collateral.output) (o : tape_state) : result N * tape_state :=
@@ -195,6 +198,15 @@ Definition finish_j (r : @jout tape_state) : opres * state * colstate :=
      || match t_sel o with Some _ => true | None => false end
   then (RDesync, jo_st r, jo_col r)
   else (res_of (jo_res r) (fun _ => ROk), jo_st r, jo_col r).
+
+(* BTreeMap<VotingProposal, _>::insert over the items: one entry per distinct (identity, deposit) *)
+Fixpoint dedup_proposals (l : list (N * N)) (seen : list (N * N)) : list N :=
+  match l with
+  | [] => []
+  | x :: r =>
+      if existsb (fun y : N * N => (fst y =? fst x) && (snd y =? snd x)) seen then dedup_proposals r seen
+      else snd x :: dedup_proposals r (x :: seen)
+  end.
 
 Definition in_range (amt : Z) : bool := negb ((amt <? int_min) || (int_max <? amt))%Z.
 
@@ -223,6 +235,8 @@ Definition run_op2 (utxos : list (N * value)) (x : op2) (s : state) (c : colstat
       with (res, s') => (res, s', c, None) end
   | OpSetCertsDeprecated l =>
       match pure_op s o (let* cs := set_certs l in Ok (set_s_certs (Some cs) s)) with (res, s') => (res, s', c, None) end
+  | OpProposalsKeyed l =>
+      match pure_op s o (Ok (set_s_proposals (Some (dedup_proposals l [])) s)) with (res, s') => (res, s', c, None) end
   | OpSetWithdrawalsDeprecated l =>
       match pure_op s o (let* _ := set_withdrawals (map (fun e : N * N * bool => (snd e, snd (fst e))) l) in
                          Ok (set_s_withdrawals (Some (fold_left (fun m (e : N * N * bool) => wd_insert (fst (fst e)) (snd (fst e)) m) l [])) s))
